@@ -58,6 +58,7 @@ type FS struct {
 	handles  map[*Object]*fileHandle
 	scanners map[*Object]*scannerState
 	writers  map[*Object]*fileHandle
+	pending  map[*Object][]pendingWrite // bufio.Writer content not yet flushed
 	die      *Term // effects with index >= die do not happen
 	torn     *Term // the write with index == die lands a strict prefix
 	tornAll  *Term // ... everything but the newline
@@ -69,6 +70,11 @@ type FS struct {
 	reads    []effRec
 	effects  []map[string]interface{}
 	parseErrs []parseErrRec
+}
+
+type pendingWrite struct {
+	g    *Term
+	data Value
 }
 
 type effRec struct {
@@ -134,7 +140,7 @@ func (w *World) fsInit() {
 		"(*bufio.Scanner).Err":       func(ex *Exec, c *callCtx) Value { return NilRef() },
 		"bufio.NewWriter":            w.fsNewWriter,
 		"(*bufio.Writer).Write":      w.fsWriterWrite,
-		"(*bufio.Writer).Flush":      func(ex *Exec, c *callCtx) Value { return NilRef() },
+		"(*bufio.Writer).Flush":      w.fsWriterFlush,
 		ergoPath + ".writeAll":       w.fsWriteAll,
 		ergoPath + ".formatEventsParseError": w.fsParseError,
 		ergoPath + ".zzProcBegin":    w.fsProcBegin,
@@ -571,10 +577,25 @@ func (w *World) fsNewWriter(ex *Exec, c *callCtx) Value {
 	return Ref1(AddrT{Obj: o})
 }
 
+// bufio.Writer: bytes reach the file at Flush (a full buffer would flush a prefix of the same
+// lines earlier; logs beyond the 4 KiB buffer are outside the model). Unflushed bytes are lost.
 func (w *World) fsWriterWrite(ex *Exec, c *callCtx) Value {
-	h := w.fs.writers[c.args[0].(RefV).Alts[0].Tgt.(AddrT).Obj]
-	w.writeLine(c, h, c.args[1])
+	o := c.args[0].(RefV).Alts[0].Tgt.(AddrT).Obj
+	if w.fs.pending == nil {
+		w.fs.pending = map[*Object][]pendingWrite{}
+	}
+	w.fs.pending[o] = append(w.fs.pending[o], pendingWrite{g: c.guard, data: c.args[1]})
 	return TupleV{E: []Value{IntV{BVC(2, 64), true}, NilRef()}}
+}
+
+func (w *World) fsWriterFlush(ex *Exec, c *callCtx) Value {
+	o := c.args[0].(RefV).Alts[0].Tgt.(AddrT).Obj
+	h := w.fs.writers[o]
+	for _, p := range w.fs.pending[o] {
+		w.writeLine(withGuard(c, p.g), h, p.data)
+	}
+	delete(w.fs.pending, o)
+	return NilRef()
 }
 
 func (w *World) fsRename(ex *Exec, c *callCtx) Value {
@@ -601,6 +622,23 @@ func (w *World) fsRename(ex *Exec, c *callCtx) Value {
 			a.Garbled = And(a.Garbled, Not(alive))
 			b.Exists = Or(b.Exists, alive)
 			a.Exists = And(a.Exists, Not(alive))
+			// open descriptors refer to the file, not to its name: a handle on a now writes into b
+			for _, h := range w.fs.handles {
+				fa := h.files()
+				var na []fAlt
+				changed := false
+				for _, x := range fa {
+					if x.f == a && h.write {
+						changed = true
+						na = append(na, fAlt{And(x.g, Not(alive)), a}, fAlt{And(x.g, alive), b})
+					} else {
+						na = append(na, x)
+					}
+				}
+				if changed {
+					h.alts = na
+				}
+			}
 		}
 	}
 	return NilRef()
